@@ -378,8 +378,13 @@ func (w *World) doTruncate(n *Node, res *StepResult) {
 	if !alone {
 		w.probe("c07-truncation-raced-with-other-admissions")
 	}
-	if terr != nil {
+	w.noteTruncErr(n.Idx, terr)
+	if terr != nil && strings.Contains(terr.Error(), "nothing to truncate") {
+		w.probe("c07-truncate-nothing-to-cut")
+	} else if terr != nil {
 		w.probe("c07-truncate-failed")
+	}
+	if terr != nil {
 		if alone && snapDigest(s0) != snapDigest(s1) {
 			w.violate("C07", "failed-truncate", "failed-truncation-changed-ledger", n.Idx, "err %v; changed: %s", terr, snapDiff(s0, s1))
 		}
